@@ -318,3 +318,37 @@ Proof.
     apply andb_prop in He. destruct He as [He _]. now apply N.ltb_lt.
   - cbn [encodable] in He. apply andb_prop in He. destruct He as [He _]. apply andb_prop in He. destruct He as [He _]. now apply N.ltb_lt.
 Qed.
+
+(** ** 7. exact characterisations of the value decoders (soundness + completeness) *)
+Theorem param_exact : forall be vf t buf off nf depth v c',
+  wf t = true -> tys_ok t = true -> bytes_ok buf -> off <= len buf -> fuel_ok vf depth ->
+  (unmarshal_p vf be t {| ubuf := buf; uoff := off; unfds := nf; udepth := depth |} = Ok (v, c') <->
+   wt v t = true /\ encodable be off depth v = true /\ fds_below nf v = true
+   /\ slice buf off (len (spec_enc be off v)) = spec_enc be off v /\ off + len (spec_enc be off v) <= len buf
+   /\ c' = {| ubuf := buf; uoff := off + len (spec_enc be off v); unfds := nf; udepth := depth |}).
+Proof.
+  intros be vf t buf off nf depth v c' Hw Ht Hb Ho Hf. split.
+  - intros H. apply unmarshal_p_sound in H; [|exact Hw|exact Ht|exact Hb|exact Ho]. destruct H as (Hv & Ec & Hle & Hfd).
+    cbn [ubuf uoff unfds udepth] in *. pose proof (denotes_len _ _ _ _ _ _ _ Hv) as Hl. destruct Hv as (Hwt & He & Es & Hbd).
+    rewrite Hl. repeat split; try assumption. rewrite Ec. unfold set_off. cbn [ubuf uoff unfds udepth]. f_equal. lia.
+  - intros (Hwt & He & Hfd & Es & Hbd & ->).
+    apply unmarshal_p_complete_gen; try assumption. now apply has_at_of_slice.
+Qed.
+
+Theorem typed_exact : forall be vf e buf off nf depth v c',
+  wf (erase e) = true -> tys_ok (erase e) = true -> depth + edepth e <= MAX_DEPTH ->
+  bytes_ok buf -> off <= len buf -> fuel_ok vf depth ->
+  (unmarshal_t vf be e {| ubuf := buf; uoff := off; unfds := nf; udepth := depth |} = Ok (v, c') <->
+   wt v (erase e) = true /\ ety_matches e v = true /\ encodable be off depth v = true /\ fds_below nf v = true
+   /\ slice buf off (len (spec_enc be off v)) = spec_enc be off v /\ off + len (spec_enc be off v) <= len buf
+   /\ c' = {| ubuf := buf; uoff := off + len (spec_enc be off v); unfds := nf; udepth := depth |}).
+Proof.
+  intros be vf e buf off nf depth v c' Hw Ht Hd Hb Ho Hf. split.
+  - intros H. apply unmarshal_t_sound in H; [|exact Hw|exact Ht|cbn [udepth] in *; lia|exact Hb|exact Ho].
+    destruct H as (Hden & Ec & Hle & Hfd & Hm). specialize (Hden depth Hd).
+    cbn [ubuf uoff unfds udepth] in *. pose proof (denotes_len _ _ _ _ _ _ _ Hden) as Hl. destruct Hden as (Hwt & He & Es & Hbd).
+    rewrite Hl. repeat split; try assumption. rewrite Ec. unfold set_off. cbn [ubuf uoff unfds udepth]. f_equal. lia.
+  - intros (Hwt & Hm & He & Hfd & Es & Hbd & ->).
+    apply (unmarshal_t_complete_gen be v e buf off nf depth depth vf Hwt Hm He (N.le_refl depth) Hfd); [|exact Hf].
+    now apply has_at_of_slice.
+Qed.
